@@ -217,7 +217,7 @@ func GenGraph(r *rand.Rand, o GraphOpts) *Graph {
 			}
 		}
 		if o.Notes && r.IntN(4) == 0 {
-			p.Lines = append(p.Lines, "1 NOTE "+pick(r, []string{"A note", "See also @I1@", "x < y & z", ""}))
+			p.Lines = append(p.Lines, "1 NOTE "+pick(r, []string{"A note", "See also @I1@", "x < y & z", "", "50% off"}))
 		}
 		g.People = append(g.People, p)
 	}
